@@ -2,7 +2,11 @@
    Model/Mesh.v, and the arithmetic instance over R at which the f64-only methods
    (interpolation, quadrature) are proved. *)
 From Coq Require Import List Arith Lia Bool Reals Lra ZArith.
-From OV Require Import Base.Panic Base.Arith Model.Vector Model.Matrix Model.Mesh.
+From OV Require Import Base.Panic.
+From OV Require Import Base.Arith.
+From OV Require Import Model.Vector.
+From OV Require Import Model.Matrix.
+From OV Require Import Model.Mesh.
 From OV Require gen.Params.
 Import ListNotations.
 
